@@ -89,6 +89,13 @@ def judge_pair(u, part, dtname, x, y, modes=("default", False, True)):
                 add_violation(part, f"diff_ulp:value:flush={mode}:{key}", f"diff_ulp({x!r},{y!r},flush={mode})={got}, lattice distance is {want}", case)
         if want == 0 and got != 0 or (want != 0 and got == 0 and mode is not True):
             add_violation(part, f"diff_ulp:zero-iff-equal:flush={mode}:{key}", f"diff_ulp({x!r},{y!r})={got}", case)
+        # the derived metric: documented as diff_ulp(x, y).bit_length()
+        try:
+            gl = u.diff_log2ulp(x, y) if mode == "default" else u.diff_log2ulp(x, y, flush_subnormals=mode)
+            if gl != int(got).bit_length():
+                add_violation(part, f"diff_log2ulp:!=bit_length(diff_ulp):flush={mode}:{'distance>=2^53' if int(got) >= 2 ** 53 else 'distance<2^53'}", f"diff_log2ulp({x!r},{y!r},flush={mode})={gl}, diff_ulp = {got} has bit length {int(got).bit_length()}", case)
+        except Exception as e:
+            add_violation(part, f"diff_log2ulp:raises:flush={mode}", f"diff_log2ulp({x!r},{y!r}) raised {type(e).__name__}: {e}", case)
     if want:
         part["nontrivial"] += 1
 
